@@ -220,9 +220,8 @@ func unreadable(text string) (bad bool, reason string, undecided bool) {
 	func() {
 		defer func() {
 			if r := recover(); r != nil {
-				reason = ""
+				reason = goldPanic + fmt.Sprint(r)
 				undecided = true
-				_ = fmt.Sprint(r)
 			}
 		}()
 		proc := ld.NewJsonLdProcessor()
@@ -231,5 +230,12 @@ func unreadable(text string) (bad bool, reason string, undecided bool) {
 			reason = "jsonld: " + err.Error()
 		}
 	}()
-	return reason != "", reason, undecided
+	if undecided {
+		return false, reason, true
+	}
+	return reason != "", reason, false
 }
+
+// goldPanic prefixes the reason of an undecided document on which json-gold itself panicked (as
+// opposed to a document that is undecided because a reader may or may not ignore a BOM).
+const goldPanic = "json-gold panic: "
